@@ -550,6 +550,9 @@ class NodePattern:
             allow_other_inputs=self.allow_other_inputs,
             check=self._check,
         )
+        # self.op is already a pattern object, from which the constructor cannot
+        # recover the operator identifier used to look up candidate nodes.
+        copied._op_identifier = self._op_identifier  # pylint: disable=protected-access
         node_map[self] = copied
         return copied
 
